@@ -66,6 +66,12 @@ class Universe:
             self._reg(self.values, "v", v)
 
     def reg_node(self, n):
+        if id(n) in self._ids:
+            return
+        try:  # a Node whose constructor raised half-way is not a usable object
+            n.doc_string, n.inputs, n.outputs, n.attributes
+        except AttributeError:
+            return
         self._reg(self.nodes, "n", n)
 
     def reg_graph(self, g):
@@ -374,7 +380,7 @@ def _io_insert(u, h, c, i, v):
 @op("io_pop", "hci")
 def _io_pop(u, h, c, i):
     coll = u.IO(u.H(h), c)
-    coll.pop((i % (len(coll) + 3)) - 1 - len(coll) % 2)
+    return coll.pop((i % (len(coll) + 3)) - 1 - len(coll) % 2)
 
 
 @op("io_remove", "hcv")
@@ -456,12 +462,12 @@ def _init_delitem(u, h, k):
 @op("init_pop", "hk")
 def _init_pop(u, h, k):
     g = u.G(h)
-    g.initializers.pop(u.KEY(g, k))
+    return g.initializers.pop(u.KEY(g, k))
 
 
 @op("init_popitem", "h")
 def _init_popitem(u, h):
-    u.G(h).initializers.popitem()
+    return u.G(h).initializers.popitem()[1]
 
 
 @op("init_clear", "h")
@@ -485,7 +491,7 @@ def _init_setdefault(u, h, k, v):
     g = u.G(h)
     val = u.V(v)
     key = val.name if (k % 2 == 0 and isinstance(val.name, str)) else u.KEY(g, k // 2)
-    g.initializers.setdefault(key, val)
+    return g.initializers.setdefault(key, val)
 
 
 @op("init_ior", "hL")
@@ -513,7 +519,58 @@ def _conv_replace(u, h, n, old, new, ov, nv):
     )
 
 
-DEFAULT_OPS = [k for k in ALPHABET if k not in ("conv_replace_nodes_values",)]
+# ---- setters / constructors that do not touch use-def links (used by C20, C06) -----------------
+@op("n_set_attr", "nii")
+def _n_set_attr(u, n, k, val):
+    u.N(n).attributes[f"attr{k % 3}"] = ir.AttrInt64(f"attr{k % 3}", val)
+
+
+@op("n_set_fields", "nii")
+def _n_set_fields(u, n, which, val):
+    node = u.N(n)
+    w = which % 4
+    if w == 0:
+        node.domain = ["", "ai.onnx", "custom"][val % 3]
+    elif w == 1:
+        node.op_type = OPS[val % len(OPS)]
+    elif w == 2:
+        node.overload = ["", "o1"][val % 2]
+    else:
+        node.version = [None, 18, 20][val % 3]
+
+
+@op("v_set_fields", "vii")
+def _v_set_fields(u, v, which, val):
+    value = u.V(v)
+    w = which % 4
+    if w == 0:
+        value.type = [None, ir.TensorType(ir.DataType.FLOAT), ir.TensorType(ir.DataType.INT64)][val % 3]
+    elif w == 1:
+        value.shape = [None, ir.Shape([2]), ir.Shape(["N", val])][val % 3]
+    elif w == 2:
+        value.const_value = None if val % 2 else u.tensor(val)
+    else:
+        value.merge_shapes([None, ir.Shape([2]), ir.Shape(["N", 3]), ir.Shape([None, None])][val % 4])
+
+
+@op("new_model", "h")
+def _new_model(u, h):
+    g = u.G(h)
+    m = ir.Model(g, ir_version=10)
+    return m
+
+
+@op("new_function", "hi")
+def _new_function(u, h, k):
+    f = ir.Function("dom", f"fn{k % 3}", graph=u.G(h), attributes=[ir.AttrInt64("alpha", k)])
+    f.name = f"fn{k % 2}"
+    f.domain = ["dom", "d2"][k % 2]
+    f.overload = ["", "ov"][k % 2]
+    return f
+
+
+SETTER_OPS = ["n_set_attr", "n_set_fields", "v_set_fields", "new_model", "new_function"]
+DEFAULT_OPS = [k for k in ALPHABET if k not in ("conv_replace_nodes_values",) and k not in SETTER_OPS]
 
 
 def op_strategy(names=None):
@@ -546,15 +603,17 @@ def op_strategy(names=None):
     return st.one_of(strategies)
 
 
-def run_op(u, op):
-    """Execute one op; returns (raised_exception_or_None)."""
+def run_op(u, op, returns=None):
+    """Execute one op; returns (raised_exception_or_None). If `returns` is a list the op's return value is appended."""
     name = op[0]
     spec, fn = ALPHABET[name]
     args = op[1:]
     if len(args) != len(spec):
         raise Malformed(f"arity {name}")
     try:
-        fn(u, *args)
+        r = fn(u, *args)
+        if returns is not None:
+            returns.append(r)
         return None
     except Malformed:
         raise
